@@ -611,6 +611,12 @@ def ctor_cases(tier):
         for unit in ('cm', 'ft'):
             for u in ('file5mm', 'zero', 'tiny'):
                 out.append(mk(unit=unit, bset='mid', user=u, flow=0.01))
+    # a honoured 5 mm request with a plane a hair past a whole number of steps; core lengths whose value in the
+    # input unit x conversion factor is not the nearest double of the rounded length (100.7 cm, 100.9 cm)
+    out.append(mk(bset='hair5', user='file5mm', flow=0.5))
+    for Lm in (1.007, 1.009):
+        out.append(mk(unit='cm', length=Lm, lenround=4, flow=0.5))
+        out.append(mk(unit='cm', length=Lm, lenround=4, flow=0.5, user='file5mm'))
     for u in ('half', 'equal', 'above'):      # requirement above the 1 cm cap
         out.append(mk(bset='mid', user=u, flow=0.5))
     for cool in (None, 'sodium'):
@@ -659,6 +665,9 @@ def ctor_scenario(c, user_file):
     elif bset == 'sub':
         planes = [L / 4.0 + 1e-13, L / 4.0, L / 2.0]
         cells = [0.0, L / 2.0 - 1e-7, L]
+    elif bset == 'hair5':
+        # a requested plane 2.5 um (0.05 % of a 5 mm step) past a whole number of 5 mm steps
+        planes = [0.0750025]
     expected = [0.0, L] + list(cells) + list(planes or [])
     for rg in (regions or {}).values():
         expected += [rg['z_lo'], rg['z_hi']]
